@@ -18,6 +18,7 @@ namespace sim {
 Arena g_arena[A_COUNT];
 Global g;
 uint8_t* g_guard_hit; uint32_t g_n_guards;
+const uintptr_t* g_pcs_beg; const uintptr_t* g_pcs_end;
 
 static const uintptr_t kBase[A_COUNT] = {0x7e0000000000ull, 0x7e1000000000ull, 0x7e2000000000ull};
 static const size_t kSize[A_COUNT] = {32u << 20, 16u << 20, 96u << 20};
@@ -183,7 +184,8 @@ void violate(VKind k, const std::string& detail, bool failstop) {
     errno = saved_errno;
     if (failstop) {
         g.abort_run = true;
-        if (g.cur && g.cur->in_call && g.cur->jmp_set) siglongjmp(g.cur->jmp, 1);
+        // leave the library call at once (also when we are inside an allocator callback or a monitor callback of that call)
+        if (g.cur && g.cur->jmp_set) siglongjmp(g.cur->jmp, 1);
     }
 }
 
@@ -516,6 +518,7 @@ void __sanitizer_cov_trace_pc_guard_init(uint32_t* start, uint32_t* stop) {
     if (g_guard_hit) { memcpy(nh, g_guard_hit, g_n_guards + 1); free(g_guard_hit); }
     g_guard_hit = nh; g_n_guards = n;
 }
+void __sanitizer_cov_pcs_init(const uintptr_t* beg, const uintptr_t* end) { if (!g_pcs_beg) { g_pcs_beg = beg; g_pcs_end = end; } }
 void __sanitizer_cov_trace_pc_guard(uint32_t* guard) {
     g.edges++;
     g_guard_hit[*guard] = 1;
@@ -609,6 +612,51 @@ int sim_wcsncmp(const wchar_t* a, const wchar_t* b, size_t n) {
         if (!a[i]) return 0;
     }
     return 0;
+}
+// ---- further libc routines the unchanged library does not import but a changed one plausibly would
+const void* sim_memchr(const void* p, int c, size_t n) {
+    const void* r = memchr(p, c, n);
+    size_t touched = r ? (size_t)((const char*)r - (const char*)p) + 1 : n;
+    if (touched) check_access((uintptr_t)p, touched, false);
+    return r;
+}
+const wchar_t* sim_wmemchr(const wchar_t* p, wchar_t c, size_t n) {
+    const wchar_t* r = wmemchr(p, c, n);
+    size_t touched = r ? (size_t)(r - p) + 1 : n;
+    if (touched) check_access((uintptr_t)p, touched * sizeof(wchar_t), false);
+    return r;
+}
+const char* sim_strchr(const char* s, int c) { size_t n = sim_strlen(s); if (g.abort_run) return nullptr; return (const char*)memchr(s, c, n + 1); }
+const wchar_t* sim_wcschr(const wchar_t* s, wchar_t c) { size_t n = sim_wcslen(s); if (g.abort_run) return nullptr; return wmemchr(s, c, n + 1); }
+const char* sim_strrchr(const char* s, int c) { sim_strlen(s); if (g.abort_run) return nullptr; return strrchr(s, c); }
+int sim_strcmp(const char* a, const char* b) { return sim_strncmp(a, b, (size_t)-1 >> 1); }
+int sim_wcscmp(const wchar_t* a, const wchar_t* b) { return sim_wcsncmp(a, b, (size_t)-1 >> 3); }
+char* sim_strcpy(char* d, const char* s) { size_t n = sim_strlen(s); if (g.abort_run) return d; check_access((uintptr_t)d, n + 1, true); return (char*)memmove(d, s, n + 1); }
+wchar_t* sim_wcscpy(wchar_t* d, const wchar_t* s) { size_t n = sim_wcslen(s); if (g.abort_run) return d; check_access((uintptr_t)d, (n + 1) * sizeof(wchar_t), true); return (wchar_t*)memmove(d, s, (n + 1) * sizeof(wchar_t)); }
+char* sim_strncpy(char* d, const char* s, size_t n) { if (n) { size_t l = 0; while (l < n) { check_access((uintptr_t)(s + l), 1, false); if (g.abort_run || !s[l]) break; l++; } check_access((uintptr_t)d, n, true); } return strncpy(d, s, n); }
+wchar_t* sim_wcsncpy(wchar_t* d, const wchar_t* s, size_t n) { if (n) { size_t l = 0; while (l < n) { check_access((uintptr_t)(s + l), sizeof(wchar_t), false); if (g.abort_run || !s[l]) break; l++; } check_access((uintptr_t)d, n * sizeof(wchar_t), true); } return wcsncpy(d, s, n); }
+wchar_t* sim_wmemcpy(wchar_t* d, const wchar_t* s, size_t n) { return (wchar_t*)sim_memcpy(d, s, n * sizeof(wchar_t)); }
+wchar_t* sim_wmemcpy2(wchar_t* d, const wchar_t* s, size_t n) { return (wchar_t*)sim_memcpy(d, s, n * sizeof(wchar_t)); }
+wchar_t* sim_wmemset(wchar_t* d, wchar_t c, size_t n) { if (n) check_access((uintptr_t)d, n * sizeof(wchar_t), true); return wmemset(d, c, n); }
+int sim_wmemcmp(const wchar_t* a, const wchar_t* b, size_t n) { if (n) { check_access((uintptr_t)a, n * sizeof(wchar_t), false); check_access((uintptr_t)b, n * sizeof(wchar_t), false); } return wmemcmp(a, b, n); }
+size_t sim_strnlen(const char* s, size_t n) { size_t i = 0; for (; i < n; i++) { check_access((uintptr_t)(s + i), 1, false); if (g.abort_run || !s[i]) break; } return i; }
+size_t sim_wcsnlen(const wchar_t* s, size_t n) { size_t i = 0; for (; i < n; i++) { check_access((uintptr_t)(s + i), sizeof(wchar_t), false); if (g.abort_run || !s[i]) break; } return i; }
+// formatted output: the real routine writes at most n characters; what it wrote is checked afterwards (the arenas are mapped, an
+// overrun lands in a red zone and is reported, and the canaries around caller buffers catch it independently)
+int sim_snprintf(char* buf, size_t n, const char* fmt, ...) {
+    va_list ap; va_start(ap, fmt); int r = vsnprintf(buf, n, fmt, ap); va_end(ap);
+    if (n) { size_t w = r < 0 ? n : ((size_t)r + 1 < n ? (size_t)r + 1 : n); check_access((uintptr_t)buf, w, true); }
+    return r;
+}
+int sim_sprintf(char* buf, const char* fmt, ...) {
+    va_list ap; va_start(ap, fmt); int r = vsprintf(buf, fmt, ap); va_end(ap);
+    if (r >= 0) check_access((uintptr_t)buf, (size_t)r + 1, true);
+    return r;
+}
+int sim_swprintf(wchar_t* buf, size_t n, const wchar_t* fmt, ...) {
+    va_list ap; va_start(ap, fmt); int r = vswprintf(buf, n, fmt, ap); va_end(ap);
+    if (n) { size_t w = r < 0 ? n : ((size_t)r + 1 < n ? (size_t)r + 1 : n); check_access((uintptr_t)buf, w * sizeof(wchar_t), true); }
+    return r;
 }
 void sim_assert_fail(const char* expr, const char* file, unsigned line, const char*) {
     CallCtx* c = g.cur;
